@@ -19,6 +19,7 @@ def gen_pairs(rng, n, vkind):
 
 class C02(Prop):
     id = 'C02'
+    extracted = True      # per-key comprehensions of the join family, the grouping loop, cartesian, subtractByKey (harness/extract_m.py TrComp, Extracted/EquivC02.lean)
     quick_cases = 3000
     thorough_cases = 40000
     quick_budget_s = 60
